@@ -1,10 +1,43 @@
-(* C12 property theorems (statements closed by [exact]); filled as the proofs land. *)
-From Tbfmm Require Import Base.Prelude Index.MortonDefs Tree.GroupDefs Tree.BuildDefs Tree.Invariant Exec.ExecDefs.
+(* C12 — operator flags compose: staged runs equal a full run, each flag triggers only its operator and writes only its
+   outputs, nothing is applied above the upper working level.  Statements only; proofs in Spec/Flags.v. *)
+From Tbfmm Require Import Base.Prelude Index.MortonDefs Tree.GroupDefs Tree.BuildDefs Exec.ExecDefs Spec.Kernel Spec.Flags.
 Local Open Scope Z_scope.
 
-(* non-vacuity / smoke: the model executes a concrete tree without any assertion failure *)
-Theorem C12_example_no_assert :
-  forallb (fun c => match c with CAssert _ => false | _ => true end)
-          (execute 3 false 2 63 (build (parent 3) 4 2 false [5;5;63;0;9;12;9;300;301;511])) = true.
-Proof. vm_compute. reflexivity. Qed.
-Print Assumptions C12_example_no_assert.
+(* each flag triggers only its own operator: every call of execute(flags) belongs to an operator whose bit is set *)
+Theorem C12_single_flag_only : forall d per s flags t c,
+  In c (execute d per s flags t) -> (forall id, c <> CAssert id) -> has flags (op_flag c) = true.
+Proof. exact single_flag_only. Qed.
+Print Assumptions C12_single_flag_only.
+
+(* no operator is applied above the configured upper working level (for every tree, flags, level) *)
+Theorem C12_nothing_above_s : forall d per s flags t c, In c (execute d per s flags t) ->
+  match c with CM2M l _ _ | CL2L l _ _ | CM2L l _ _ => Z.max 0 s <= l | _ => True end.
+Proof. exact nothing_above_s. Qed.
+Print Assumptions C12_nothing_above_s.
+
+(* write sets: a trace without P2M/M2M calls leaves every multipole untouched, without M2L/L2L every local, without
+   L2P/P2P every particle result (e.g. the near-field flag alone changes particle results but no cell expansion) *)
+Theorem C12_run_frame : forall L tr s,
+  ((forall c, In c tr -> op_flag c <> 2 /\ op_flag c <> 4) -> s_mult (run L tr s) = s_mult s) /\
+  ((forall c, In c tr -> op_flag c <> 8 /\ op_flag c <> 16) -> s_loc (run L tr s) = s_loc s) /\
+  ((forall c, In c tr -> op_flag c <> 32 /\ op_flag c <> 1) -> s_rhs (run L tr s) = s_rhs s).
+Proof. exact run_frame. Qed.
+Print Assumptions C12_run_frame.
+
+(* staged runs: any sequence of execute() calls whose flag sets partition the full set with the far-field chain in dependency
+   order (near field anywhere) leaves the same state as one full run - for ANY tree, any upper level, any dimension *)
+Theorem C12_staged_equals_full : forall d per L s t h, history_ok h ->
+  st_eq (run L (flat_map (fun f => execute d per s f t) h) st0) (run L (execute d per s 63 t) st0).
+Proof. exact staged_equals_full. Qed.
+Print Assumptions C12_staged_equals_full.
+
+(* the documented three-call split (bottom-to-top / transfer / top-to-bottom) and the fully split runs are admissible; a
+   history running the chain backwards, or missing the near field, is not *)
+Theorem C12_history_examples :
+  history_ok [6; 9; 48] /\ history_ok [2; 4; 8; 16; 32; 1] /\ history_ok [1; 2; 4; 8; 16; 32] /\ history_ok [63] /\ history_ok [6; 8; 48; 1].
+Proof. exact history_examples. Qed.
+Print Assumptions C12_history_examples.
+Theorem C12_history_counterexamples :
+  ~ history_ok [48; 9; 6] /\ ~ history_ok [2; 4; 8; 16; 32] /\ ~ history_ok [63; 1] /\ ~ history_ok [].
+Proof. exact history_counterexamples. Qed.
+Print Assumptions C12_history_counterexamples.
